@@ -114,6 +114,7 @@ type Cluster struct {
 	scenRejectAt int64
 	scenRound    int
 	healedInMs int64
+	healConverged bool
 	window     *stickyWindow
 	Stats      RunStats
 }
